@@ -56,7 +56,8 @@ func parseGuarded(s string) (parseOut, bool) {
 
 var hostileTokens = []string{
 	"'", "\"", "[", "]", "`", "é", "٣", "٣٤", "0x", "0X", "1e", "1e+", "1e-", ".", "..", ".e", "1.2.3", "9999999999999999999999", "0xFFFFFFFFFFFFFFFFF", "0x8000000000000000",
-	"-", "+", "(", ")", ",", "*", "~", "||", "<>", "!=", "!", "=", "==", ">>", "<<", "&", "|", "%", "/", ";", "\x00", "\xff", "\xc3", "\xe6\x97", "�",
+	"-", "+", "(", ")", ",", "*", "~", "||", "<>", "!=", "!", "=", "==", ">>", "<<", "&", "|", "%", "/", ";", "->", "->>", "-->", "->>>", "<=", ">=", "<", ">", "<=>",
+	"IS", "ISNULL", "NOTNULL", "LIKE", "GLOB", "IN", "BETWEEN", "AND", "OR", "ESCAPE", "CAST", "CASE", "WHEN", "THEN", "ELSE", "END", "\x00", "\xff", "\xc3", "\xe6\x97", "�",
 	"SELECT", "CREATE", "TABLE", "INDEX", "UNIQUE", "ON", "WHERE", "WITHOUT", "ROWID", "PRIMARY", "KEY", "REPLACE", "DEFAULT", "NULL", "NOT", "COLLATE", "CHECK",
 	"REFERENCES", "CONSTRAINT", "AUTOINCREMENT", "ASC", "DESC", "FROM", "--", "/*", "*/", "'a''b'", "\"a\"\"b\"", "[a b]", "`a``b`", "''", "\"\"", "x'00'",
 	"1", "-1", "+1", "1.5", "-1.5", "a", "B", "_", "_1", "日本", "ǅ", "𝔘", " ", "\t", "\n", " ", " ", "　",
@@ -90,9 +91,37 @@ func tokensOf(s string) []string {
 func genStatement(t *rapid.T) string {
 	used := map[string]bool{}
 	tb := sqlgen.GenTable(t, sqlgen.GenIdent(t, used, "tn"), sqlgen.Opts{MaxCols: 4})
-	switch rapid.IntRange(0, 2).Draw(t, "stkind") {
+	switch rapid.IntRange(0, 3).Draw(t, "stkind") {
 	case 0:
 		return tb.SQL()
+	case 3:
+		// every operator spelling SQLite 3.40 knows, in the three places an
+		// expression can stand
+		c := sqlgen.Ref(t, rapid.SampledFrom(tb.ColumnIdents()).Draw(t, "opc"), "opc")
+		lit := rapid.SampledFrom([]string{"1", "'k'", "'$.a'", "2.5", "x'00'", "NULL", c}).Draw(t, "oplit")
+		op := rapid.SampledFrom([]string{"->", "->>", "||", "*", "/", "%", "+", "-", "<<", ">>", "&", "|", "<", "<=", ">", ">=", "=", "==", "!=", "<>", "IS", "IS NOT",
+			"IN", "LIKE", "GLOB", "AND", "OR", "NOT LIKE", "NOT GLOB", "IS NOT DISTINCT FROM", "IS DISTINCT FROM"}).Draw(t, "op")
+		e := c + " " + op + " " + lit
+		if op == "IN" {
+			e = c + " IN (" + lit + ", 2)"
+		}
+		if rapid.IntRange(0, 3).Draw(t, "optight") == 0 {
+			e = strings.ReplaceAll(e, " ", "")
+			if strings.ContainsAny(op, "ABCDEFGHIJKLMNOPQRSTUVWXYZ") {
+				e = c + " " + op + " " + lit
+			}
+		}
+		if rapid.IntRange(0, 2).Draw(t, "opsecond") == 0 {
+			e += " " + rapid.SampledFrom([]string{"->>", "->", "||", "+", "=", "AND"}).Draw(t, "op2") + " " + rapid.SampledFrom([]string{"'b'", "0", c}).Draw(t, "oplit2")
+		}
+		switch rapid.IntRange(0, 2).Draw(t, "opplace") {
+		case 0:
+			return "CREATE INDEX " + sqlgen.GenIdent(t, used, "in").SQL + " ON " + tb.Ident.SQL + " (" + e + ")"
+		case 1:
+			return "CREATE INDEX " + sqlgen.GenIdent(t, used, "in").SQL + " ON " + tb.Ident.SQL + " (" + c + ") WHERE " + e
+		default:
+			return "CREATE TABLE " + tb.Ident.SQL + " (" + tb.Cols[0].Ident.SQL + ", CHECK (" + e + "))"
+		}
 	case 1:
 		return sqlgen.GenIndex(t, sqlgen.GenIdent(t, used, "in"), tb, rapid.Bool().Draw(t, "uq"), true, true).SQL()
 	default:
@@ -199,10 +228,14 @@ func TestC16Total(t *testing.T) {
 				r.Violation(t, s, "total:neither", "Parse(%q) returned neither a statement nor an error", s.Input)
 				return
 			}
-			second := parseOnce(s.Input)
-			if !reflect.DeepEqual(first, second) {
-				r.Violation(t, s, "det:repeat", "Parse(%q) twice: %+v then %+v", s.Input, first, second)
-				return
+			// (several times: an order-dependent choice, e.g. by map iteration,
+			// shows with some probability only)
+			for i := 0; i < 6; i++ {
+				second := parseOnce(s.Input)
+				if !reflect.DeepEqual(first, second) {
+					r.Violation(t, s, "det:repeat", "Parse(%q) repeatedly: %+v then %+v", s.Input, first, second)
+					return
+				}
 			}
 			parseOnce(s.Other)
 			third := parseOnce(s.Input)
